@@ -6,10 +6,62 @@ props = [json.loads(l) for l in open(os.path.join(V, 'properties.jsonl'))]
 
 # id -> (technique, level text, level note, design ref)
 CHECKS = {
+ "C02": ("proptest + small-scope enumeration against a reference scan (first offender, code-point positions, RFC 5892 reference rules); generated user classes",
+         "Exploration: all labels up to length 3/4 over a 30-character alphabet, millions of proptest labels for both standard classes and generated user-supplied classes (random assignments of the 7 derived-property values), compared with a reference scan that yields the set of allowed results.",
+         "Classification is the class's own get_value_from_char (C14 decides that); context truth comes from my RFC 5892 reference rules over the pinned UCD 6.3.0 data.",
+         "DESIGN.md 3/C02"),
+ "C03": ("exhaustive per-role sweep of all 1,114,112 code points + arrangement enumeration + proptest, against RFC 5892 App. A reference rules returning allowed-answer sets",
+         "Exploration, exhaustive in the stated sub-domains: every scalar value as the inspected neighbour of each rule role (18 templates x all 8 rule functions), every arrangement of joining classes up to length 6/7 at every position, registry sweep over all code points; random labels/positions beyond.",
+         "Trusts my parse of UnicodeData/Scripts/DerivedJoiningType 6.3.0 (pinned copies) and my reading of RFC 5892 App. A; 'undefined' is accepted in place of 'false' only at label edges.",
+         "DESIGN.md 3/C03"),
+ "C04": ("proptest with valid-biased generators against an independent pipeline model (own width table, reference IdentifierClass scan, std lowercase, ICU4X NFC, RFC 5893 rule)",
+         "Exploration: millions of generated usernames (40% accepted, >10% with two or more interacting steps) through prepare and enforce of both username profiles, compared with a fully independent model giving the set of allowed results; enforce error == prepare error.",
+         "Trusts ICU4X NFC, std char::to_lowercase, pinned UnicodeData 16.0.0/6.3.0; K1 (interior NSM) excused by exact signature only.",
+         "DESIGN.md 3/C04"),
+ "C05": ("proptest against an independent model + metamorphic checks (no non-ASCII Zs, NFC, byte-for-byte identity)",
+         "Exploration: millions of generated passwords with every Zs in every placement, composing sequences and compatibility characters, compared with the RFC 8265 4.2 model; metamorphic side conditions on every accepted result.",
+         "Trusts ICU4X NFC and the pinned UnicodeData 16.0.0 (Zs set) / 6.3.0 (FreeformClass reference).",
+         "DESIGN.md 3/C05"),
+ "C06": ("proptest + exhaustive pair enumeration of NFKC-space-producing characters against a reference fixed-point model (reference stabilize of the RFC 8266 round)",
+         "Exploration: generated nicknames rich in spaces and characters whose NFKC introduces spaces (hundreds of thousands need 2 or 3 applications), compared with reference stabilize over the model round; every accepted result is re-checked to be a fixed point in the model and under the implementation's own rules.",
+         "Trusts ICU4X NFKC, pinned UCD data; no natural input needing a 4th application is known, that branch is covered by C13.",
+         "DESIGN.md 3/C06"),
+ "C07": ("proptest pairs/triples built from equivalence-flavoured rewrites, against model comparison forms, differential (enforce-based) and algebraic laws",
+         "Exploration: generated pairs (a, variant(a)), (v1(a), v2(a)), independent and invalid pairs for all four profiles against the model compare; static entry point agreement; compare == enforce-equality for username/password profiles; reflexive/symmetric/transitive/strict-error laws on triples.",
+         "Same trusted base as C04-C06; K1 excused by exact signature only.",
+         "DESIGN.md 3/C07"),
+ "C08": ("exhaustive single-code-point sweep (3 templates x 4 profiles) + proptest; validity predicate over the output and re-enforce invariant",
+         "Exploration, exhaustive over every scalar value as a one-character / interior / pre-combining input for all four profiles, plus generated strings: no DISALLOWED/UNASSIGNED code point in any enforced result (reference recomputation and the class's own answer), enforce(enforce(s)) never a different string.",
+         "Trusts my RFC 8264 recomputation over UCD 6.3.0 (cross-checked against the IANA registry by C14); K2 (Cherokee) excused by exact signature only.",
+         "DESIGN.md 3/C08"),
+ "C09": ("small-scope exhaustive enumeration of bidi class sequences + per-code-point battery over all assigned code points + proptest, against the six RFC 5893 conditions",
+         "Exploration, exhaustive in the stated sub-domains: all sequences of the 23 classes up to length 5/6 and of the 7 rule-relevant groups up to length 8/10 with proptest-drawn representatives, every code point assigned in 16.0.0 in six separating templates, random strings.",
+         "Trusts my parse of UnicodeData 16.0.0 field 4 and my reading of RFC 5893 section 2; K1 (interior NSM) excused by exact signature only.",
+         "DESIGN.md 3/C09"),
+ "C10": ("exhaustive sweep of all scalar values in 7 contexts + proptest, against per-character char::to_lowercase",
+         "Exploration, exhaustive over every scalar value before/after uncased, uppercase, titlecase and 4-byte neighbours on both case-mapping profiles; random case-heavy strings beyond.",
+         "Trusts std's char::to_lowercase (same std as the library).",
+         "DESIGN.md 3/C10"),
+ "C11": ("exhaustive sweep of all scalar values in 8 contexts + proptest, against a per-character map parsed from UnicodeData 16.0.0; idempotence",
+         "Exploration, exhaustive over every scalar value alone, after unmapped prefixes of 1-4 bytes and next to mapped characters, on both username profiles; random strings beyond.",
+         "Trusts the pinned UnicodeData 16.0.0.",
+         "DESIGN.md 3/C11"),
  "C12": ("small-scope exhaustive enumeration + proptest against a map/split/join reference model",
          "Exploration: every string up to length 7 (quick) / 8 (thorough) over an 8-character alphabet with one character of each UTF-8 length and four kinds of space, every Unicode scalar value inside four templates, all 17 Zs in all 4-slot placements, and millions of proptest strings, all compared with an independent model built on my own parse of UnicodeData 16.0.0, plus idempotence. Exhaustive inside the stated bounds, statistical beyond them.",
          "Trusts the pinned copy of UnicodeData 16.0.0 (SHA256 checked), proptest, and the model in harness/src/model.rs (ref_space_nick/ref_space_opaque).",
          "DESIGN.md 3/C12"),
+ "C13": ("exhaustive enumeration of all rule functions on k<=6/7 states (programs) + proptest programs, against reference stabilize with an instrumented closure",
+         "Exploration, exhaustive over ALL functions f: S -> S+{Err1,Err2} for |S| <= 6 (quick) / 7 (thorough) from every start state; random programs with up to 12 states, three error kinds, diverging continuations, borrowed/owned results and all argument forms.",
+         "The state space of rule functions is abstracted to finite tables plus one diverging continuation; strings are opaque to stabilize, so this abstraction loses nothing stabilize can observe except string equality.",
+         "DESIGN.md 3/C13"),
+ "C14": ("exhaustive sweep of all code points against two independent oracles (RFC 8264 section 8 recomputation over UCD 6.3.0 with ICU4X; IANA registry CSV)",
+         "Exploration, exhaustive for 0..=0x10FFFF (both classes, both entry points, class relation) and sampled above; two independent oracles must both agree with the implementation.",
+         "Trusts pinned UCD 6.3.0 files, the IANA CSV, ICU4X NFKC and my typing of the RFC 5892 2.6 exceptions.",
+         "DESIGN.md 3/C14"),
+ "C18": ("exhaustive windows (bottom, U+10FFFF, u32::MAX) + proptest pairs and generated tables, against the mathematical definition",
+         "Exploration, exhaustive over every entry and code point in three 33-wide windows including both ends of the u32 range; random pairs over all u32 and generated sorted tables for the binary-search claim.",
+         "None beyond the Rust comparison operators being dispatched to the PartialOrd/PartialEq impls generated from the template.",
+         "DESIGN.md 3/C18"),
 }
 PENDING = "check not built yet in this session (work in progress, see DESIGN.md section 7 for the order of work)"
 
